@@ -30,6 +30,17 @@ CLAIMS['C09'] = dict(
          'numerical agreement between input representations.',
     technique='guard-dominance on parameter stores, role-forwarding over the call graph, finite unrolling + exact polynomial identities')
 
+CLAIMS['C19'] = dict(
+    text='Decides the property whole for the registry as written in the source (the content is finite and literal): every '
+         'module-level Element(...)/Isotope(...) call is folded to a record; names unique over all species, symbols unique '
+         'among elements and among isotopes, atomic numbers equal an embedded periodic table, isotopes bound to a defined '
+         'element with A >= Z and |weight - A| < 0.1; the key expressions of the two index builders are interpreted over all '
+         'records, and every identifier the statement names must be a key mapping to that very object with no collision between '
+         'different objects, lookups lower-casing the query like the keys; hash/eq agreement of Element, Isotope and Line '
+         '(hashed fields subset of compared fields, != the De Morgan dual of ==, identifying fields compared, hashed fields '
+         'read-only in the .pxd).',
+    technique='literal-table evaluation (constant folding of constructor calls) + interpretation of index key expressions + hash/eq field-set comparison')
+
 # ---- everything not claimed above is pending / not applicable
 _pending = 'check not built yet in this session (see DESIGN.md build order); not claimed until it is'
 for _p in ['C%02d' % i for i in range(1, 21)]:
